@@ -95,6 +95,8 @@ def run(tier):
                             raise common.Infra("the judge's and the model's component split disagree on %r" % n)
                         bij.see(repl, nc, r_, "history %s" % json.dumps(hc), {"history": hc})
                     v.nontrivial(tuple(sorted(set(p for n, ps in h for p in ps))))
+                    if any("$" in n and "." in n for n, _ in h):
+                        v.sample({"replacement": repl, "history": hc, "results": rr}, limit=3)
     # ---- (2) dictionary: injectivity and stability over a large domain, without re-computing any hash
     sym = list("abcdefghijklmnopqrstuvwxyz0123456789_-") + ["é", "漢"]
     names = [""] + ["".join(t_) for k in (1, 2, 3) for t_ in itertools.product(sym, repeat=k)]
